@@ -89,6 +89,8 @@ pub fn tree_to_shape(t: &Tree) -> Option<Shape> {
             TData::Tuple(ts) => Shape::TupleStruct(intern(n), list(ts)?),
             TData::Struct(fs) => Shape::Struct(intern(n), fields(fs)?),
         },
+        // an enum without variants has no values to generate
+        Tree::Enum(_, vs) if vs.is_empty() => return None,
         Tree::Enum(n, vs) => Shape::Enum(
             intern(n),
             vs.iter()
